@@ -13,7 +13,7 @@ import json
 from vlib import runner, sut, std, encutil, forkexec
 from vlib.runner import Outcome, Report, Reject
 from gen import messages as gmsg, templates as gtemplates
-from refbufr import tables as rtables
+from refbufr import tables as rtables, tree as rtree
 
 PID = 'C13'
 CACHE_SIZES = [None, 0, 1, 2, 200]
@@ -216,7 +216,9 @@ def gen_hist(ch, opts, real_limit=False):
                 d['meta']['master_table_version'] = ch.choice(opts.versions or versions)
                 try:
                     c = gmsg.Case.from_json(d)
-                    if not c.decoded.ambiguous():
+                    # a descriptor that the other version does not define (possibly in a body that runs zero times) makes
+                    # the message ill-formed: compiled and interpreted decoding then differ by design (C08 / C14), not by history
+                    if not c.decoded.ambiguous() and not rtree.has_undefined(c.tree):
                         c.features.add('same_template_other_table_version')
                         cases.append(c)
                         continue
